@@ -516,8 +516,8 @@ func (r *refReader) line(l, dir string) error {
 	case "secaction":
 		var al []Action
 		var err error
-		if rest != "" && rest[0] != '"' && !strings.Contains(rest, " ") {
-			// an unquoted argument is one literal word
+		if rest != "" && !strings.ContainsAny(rest, "\" ") {
+			// an unquoted argument is one word
 			al, err = refActions(rest)
 		} else {
 			al, err = refQuotedActions(rest)
@@ -602,6 +602,9 @@ func refRule(rest string) (Desc, error) {
 
 func refQuotedActions(s string) ([]Action, error) {
 	if len(s) < 2 || s[0] != '"' || s[len(s)-1] != '"' {
+		if strings.Contains(s, `"`) {
+			return nil, bad("dquote-inside-actions")
+		}
 		return nil, bad("actions-not-quoted")
 	}
 	s = s[1 : len(s)-1]
